@@ -41,9 +41,9 @@ inductive Instr where
   | pushRegisters | popRegisters
   | pushAToValueStack | popValueStackIntoA
   | pushRet (a : Nat) | popRet
-  | beginCollectArguments | pushNamed (p : Sexp) | pushUnnamedByVal | pushUnnamedByRef
+  | beginCollectArguments | pushNamed (p : Sexp) | pushNamedByRef (p : Sexp) | pushUnnamedByVal | pushUnnamedByRef
   | pushStack | pushStaticStack (scope : Sexp) | popStack
-  | enqueueToReturnStack (i : Nat) | dequeueFromReturnStack
+  | enqueueToReturnStack (i : Nat) | dequeueFromReturnStack | dequeueFromReturnStackWithPath
   | stashFunctionReturnValue (n : QName) | unStashFunctionReturnValue
   | throw (err : String)
   | onErrorGoTo (t : Target) | onErrorResumeNext | onErrorGoToZero
@@ -146,12 +146,14 @@ def ofSexp : Sexp → Option Instr
     | "PopRet", [] => some .popRet
     | "BeginCollectArguments", [] => some .beginCollectArguments
     | "PushNamed", [p] => some (.pushNamed p)
+    | "PushNamedByRef", [p] => some (.pushNamedByRef p)
     | "PushUnnamedByVal", [] => some .pushUnnamedByVal | "PushUnnamedByRef", [] => some .pushUnnamedByRef
     | "PushStack", [] => some .pushStack
     | "PushStaticStack", [s] => some (.pushStaticStack s)
     | "PopStack", [] => some .popStack
     | "EnqueueToReturnStack", [i] => do pure (.enqueueToReturnStack (← i.nat?))
     | "DequeueFromReturnStack", [] => some .dequeueFromReturnStack
+    | "DequeueFromReturnStackWithPath", [] => some .dequeueFromReturnStackWithPath
     | "StashFunctionReturnValue", [n] => do pure (.stashFunctionReturnValue (← qname? n))
     | "UnStashFunctionReturnValue", [] => some .unStashFunctionReturnValue
     | "Throw", [e] => do pure (.throw (← str? e))
